@@ -8,12 +8,19 @@ func checkC01(c *Ctx, r *Report) {
 		"(version, flag bits, counts compared with constants, header length 8/16, presence predicates), then executes the box's EncodeSW on the decoded abstract structure and compares, bit by bit, " +
 		"what is written with what was read (bit-provenance domain: every written bit must be the same input bit the decoder kept there, or a constant where the decoder discards). " +
 		"W-DR: the discarded/constant runs must be on the committed don't-care list (wire_tables.go). " +
-		"O-STICKY: a box decoder that reads from a bits.SliceReader does not return a decoded box with a literal nil error unless the reader's accumulated error was tested, the declared size is validated against what is read, children are decoded by the container helpers, or the payload is one block parsed by an error-returning callee (W-DE presumes the bytes were there: a truncated box accepted with zero-filled fields re-encodes to other bytes). Decides that decoder and encoder agree on which field sits in which wire slot, with which width, under which guard, in which order, and that every kept bit is written back; " +
+		"L-LOCKSTEP: a counter field that the code increments together with an append to a sibling list (dref/stsd entry count and Children) is never incremented on a path that does not append. O-CLEAN: a trial parser (bool result; SencBox.parseAndFillSamples, run once per candidate IV size) resets every receiver field it grows with append on every path that may return false, so a failed attempt leaves nothing for the next one to append after. O-STICKY: a box decoder that reads from a bits.SliceReader does not return a decoded box with a literal nil error unless the reader's accumulated error was tested, the declared size is validated against what is read, children are decoded by the container helpers, or the payload is one block parsed by an error-returning callee (W-DE presumes the bytes were there: a truncated box accepted with zero-filled fields re-encodes to other bytes). Decides that decoder and encoder agree on which field sits in which wire slot, with which width, under which guard, in which order, and that every kept bit is written back; " +
 		"does not decide boxes in the irregular table, numeric loop bounds, children contents (each child is its own obligation), or fixed-point-ness of normalisations."
 	wireAssumptions(r)
 	ruleWDE(c, r)
 	for _, sp := range mp4Codecs {
 		reportCodecPart(r, c, analyseCodec(c, sp), "layout")
+	}
+	if n := ruleLockstep(c, r, map[string]bool{"DrefBox": true, "StsdBox": true}); n < 2 {
+		r.Undecided("L-LOCKSTEP", "scope", "", "the pairs DrefBox.EntryCount ~ Children and StsdBox.SampleCount ~ Children were not inferred")
+	}
+	requireFixture(r, "L-LOCKSTEP", "stepper.alone", func(fc *Ctx, s *Report) { ruleLockstep(fc, s, nil) })
+	if n := ruleTrialCleanup(c, r); n < 1 {
+		r.Undecided("O-CLEAN", "scope", "", "no trial parser (bool result, receiver fields grown with append) found; SencBox.parseAndFillSamples expected")
 	}
 	if n := ruleStickyError(c, r); n < 70 {
 		r.Undecided("O-STICKY", "scope", "", "box decoders that read from a bits.SliceReader not found")
